@@ -714,9 +714,9 @@ fn build_one(c: &mut Ctx, fam: &str, idx: u64, rng: &mut Rng) {
     let pool = g::NamePool::new(rng, 6);
     let types = build_types();
     let mut items: Vec<ModelItem> = Vec::new();
-    let size_class = idx % 4; // 0 small, 1 small buffer (failing pushes), 2 across 16384, 3 large
+    let size_class = idx % 5; // 0 small, 1 small buffer (failing pushes), 2 across 16384, 3 large, 4 many distinct names
     // filler so that later names land around message offset 16384
-    if size_class >= 2 {
+    if size_class == 2 || size_class == 3 {
         let target: usize = if size_class == 2 { (16384 + rng.range(0, 60)) - 30 } else { rng.range(20000, 40000) };
         let mut cur = 12usize;
         while cur + 11 < target {
@@ -727,9 +727,85 @@ fn build_one(c: &mut Ctx, fam: &str, idx: u64, rng: &mut Rng) {
     } else if rng.chance(2, 3) {
         items.push(ModelItem { section: 0, owner: pool.pick(rng), rtype: *rng.pick(&types), class: 1, ttl: 0, fs: vec![] });
     }
-    let n = rng.range(2, 14);
+    // many distinct names in a few hierarchies, used in an order that makes a bounded
+    // compression table evict and reuse its slots (suffix, child, grandchild ... unrelated names ... siblings)
+    let big_pool: Vec<Vec<u8>> = if size_class == 4 {
+        let mut v: Vec<Vec<u8>> = Vec::new();
+        let mut host = 0;
+        for z in 0..rng.range(3, 8) {
+            // some zones share a top-level label, most have their own (so that nothing keeps their entries in use)
+            let tld: Vec<u8> = if rng.chance(1, 3) { rng.pick(&[&b"test"[..], b"example", b"Test"]).to_vec() } else { format!("tld{}", z).into_bytes() };
+            let zone = names::from_labels(&[format!("zone-{}", z).into_bytes(), tld]);
+            v.push(zone.clone());
+            for _ in 0..rng.range(1, 4) {
+                // few child labels: the same one turns up under several zones
+                let ch: Vec<u8> = rng.pick(&[&b"www"[..], b"mail", b"ns1"]).to_vec();
+                let mut child = vec![ch.len() as u8];
+                child.extend_from_slice(&ch);
+                child.extend_from_slice(&zone);
+                v.push(child.clone());
+                for _ in 0..rng.below(3) {
+                    let g = names::small_label(rng);
+                    let mut gc = vec![g.len() as u8];
+                    gc.extend_from_slice(&g);
+                    gc.extend_from_slice(&child);
+                    v.push(gc);
+                }
+            }
+            // unrelated single-label names in between
+            for _ in 0..rng.range(0, 40) {
+                host += 1;
+                v.push(names::from_labels(&[format!("host{:02}", host).into_bytes()]));
+            }
+        }
+        v
+    } else {
+        Vec::new()
+    };
+    // one in ten of these scripts is the plain pattern: a zone, a child, a grandchild, some thirty
+    // unrelated names (as many as the table of a bounded compressor holds, give or take), another
+    // zone and its child of the same label -- all A records, nothing else touching the names
+    if size_class == 4 && idx % 50 == 9 {
+        let between = 24 + (idx / 50) % 14;
+        let child = rng.pick(&[&b"www"[..], b"mail", b"ns1"]).to_vec();
+        let mut seq: Vec<Vec<u8>> = vec![names::from_labels(&[b"q".to_vec(), b"invalid".to_vec()])];
+        let za = names::from_labels(&[b"zone-a".to_vec(), b"test".to_vec()]);
+        let zb = names::from_labels(&[b"zone-b".to_vec(), b"example".to_vec()]);
+        let under = |l: &[u8], n: &[u8]| { let mut v = vec![l.len() as u8]; v.extend_from_slice(l); v.extend_from_slice(n); v };
+        seq.push(za.clone());
+        seq.push(under(&child, &za));
+        seq.push(under(b"x", &under(&child, &za)));
+        for i in 0..between {
+            seq.push(names::from_labels(&[format!("host{:02}", i).into_bytes()]));
+        }
+        seq.push(names::from_labels(&[b"filler".to_vec(), b"invalid-b".to_vec()]));
+        seq.push(zb.clone());
+        seq.push(under(&child, &zb));
+        for o in seq {
+            items.push(ModelItem { section: 1, owner: o, rtype: w::T_A, class: 1, ttl: 300, fs: vec![Fv::Raw(rng.bytes(4))] });
+        }
+    }
+    let n = if size_class == 4 && idx % 50 == 9 { 0 } else if size_class == 4 { big_pool.len() + rng.range(0, 30) } else { rng.range(2, 14) };
     let mut sec = 1u8;
-    for _ in 0..n {
+    for k in 0..n {
+        if size_class == 4 {
+            if rng.chance(1, 60) && sec < 3 {
+                sec += 1;
+            }
+            // walk the pool roughly in order, with jumps back to names used long ago
+            let at = (k * big_pool.len() / n).min(big_pool.len() - 1);
+            let owner = if rng.chance(1, 12) { rng.pick(&big_pool).clone() } else { big_pool[at].clone() };
+            // targets mostly near the owner in the pool (the same hierarchy), now and then anywhere
+            let near = |rng: &mut Rng| -> Vec<u8> { if rng.chance(1, 10) { rng.pick(&big_pool).clone() } else { big_pool[(at + rng.below(3)).min(big_pool.len() - 1)].clone() } };
+            let (t, fs) = match rng.below(6) {
+                0..=2 => (w::T_A, vec![Fv::Raw(rng.bytes(4))]),
+                3 => (w::T_NS, vec![Fv::Name { wire: near(rng), lc: true, compress: true }]),
+                4 => (w::T_CNAME, vec![Fv::Name { wire: near(rng), lc: true, compress: true }]),
+                _ => (w::T_MX, vec![Fv::Raw(rng.u16().to_be_bytes().to_vec()), Fv::Name { wire: near(rng), lc: true, compress: true }]),
+            };
+            items.push(ModelItem { section: sec, owner, rtype: t, class: 1, ttl: rng.u32() >> 1, fs });
+            continue;
+        }
         if rng.chance(1, 4) && sec < 3 {
             sec += 1;
         }
@@ -751,7 +827,7 @@ fn build_one(c: &mut Ctx, fam: &str, idx: u64, rng: &mut Rng) {
     let ex = || json!({"size_class": size_class, "bufsize": bufsize, "items": items.iter().map(|i| json!({"section": i.section, "owner": w::name_text(&i.owner), "type": i.rtype, "rdata": hex(&w::compose_fields(&i.fs)[..w::compose_fields(&i.fs).len().min(24)])})).collect::<Vec<_>>()});
     let res = ctx::catch(|| {
         step("new::MessageBuilder");
-        let (nb, nacc) = if idx % 8 >= 4 { build_new_fwd(&items, bufsize, id) } else { build_new(&items, bufsize, id) };
+        let (nb, nacc) = if (idx / 5) % 2 == 1 { build_new_fwd(&items, bufsize, id) } else { build_new(&items, bufsize, id) };
         step("old::MessageBuilder");
         let (ob, oacc) = build_old(&items, bufsize, id);
         (nb, nacc, ob, oacc)
@@ -840,6 +916,9 @@ fn build_one(c: &mut Ctx, fam: &str, idx: u64, rng: &mut Rng) {
         }
     }
     c.count("build_scripts", 1);
+    if size_class == 4 {
+        c.count("build_scripts_with_many_names", 1);
+    }
     c.eval(&("build", size_class, items.len().min(12), nacc.iter().filter(|a| !**a).count().min(3), nb.len() / 4096));
     if c.want_sample() && idx % 19 == 2 {
         c.sample(json!({"family": "build", "size_class": size_class, "items": items.len(), "new_octets": nb.len(), "old_octets": ob.len(), "new_failed_pushes": nacc.iter().filter(|a| !**a).count()}));
@@ -956,6 +1035,7 @@ pub fn run(c: &mut Ctx) {
         c.floor("new_messages_beyond_16384", 10);
         c.floor("new-built_pointers", 100);
         c.floor("new_failed_pushes", 10);
+        c.floor("build_scripts_with_many_names", 100);
         c.floor("opts_sequences_both_accept", 1000);
         c.floor("opts_typed_both_interpret", 100);
         c.floor("opts_typed_both_reject", 100);
